@@ -216,6 +216,10 @@ def _families():
                 continue      # (side-by-side raises the effective limit to what the wrapped rows can hold: documented, derived value)
             for where in ('cli-flag', 'main-flag', 'feature-list-arg', 'feature-list-main', 'feature-list-env'):
                 yield ('cli-wins-under-builtin', (o, b, where))
+        # F1c: an unrelated flag on the command line (a colour mode, a paging mode, ...) does not change which source wins
+        for src in ('main', 'gcp-new', 'feature-arg', 'feature-main', 'feature-env'):
+            for flag in ('light', 'dark', 'paging=never', 'true-color=always', 'no-gitconfig-absent'):
+                yield ('source-beside-unrelated-flag', (o, src, flag))
         # F2: main section / GIT_CONFIG_PARAMETERS beat features
         for main_src in (('main',), ('gcp-new',), ('gcp-old',), ('main', 'gcp-new')):
             for how in ('arg', 'main', 'env'):
@@ -328,6 +332,21 @@ def build(family, params, defaults):
         if OPTIONS[o] == 'bool' and S[0] == 'false':
             return None
         p.why = 'a value given on the command line is never overridden (here: by what the built-in feature %s sets or adjusts)' % b
+        p.nsources = 2
+    elif family == 'source-beside-unrelated-flag':
+        o, src, flag = params
+        S = sentinels(o, 6)
+        p = Placement(o)
+        put_source(p, o, src, S[0])
+        if flag == 'no-gitconfig-absent':
+            pass
+        elif '=' in flag:
+            k_, v_ = flag.split('=')
+            p.cli[k_] = v_
+        else:
+            p.cli_flags.append(flag)
+        p.expected = S[0]
+        p.why = 'the only source that sets the option is %s; the command line only holds --%s, which does not set it' % (src, flag)
         p.nsources = 2
     elif family == 'main-wins':
         o, main_src, how = params
@@ -563,8 +582,13 @@ def plan(ctx):
     items = [('enum', i) for i in range(len(fam))]
     if ctx.tier == 'quick':
         rng = ctx.rng('c13')
-        rng.shuffle(items)
-        items = items[:ctx.n(1100, 0)]
+        # the small families about interactions between sources (added after seeded changes slipped through a uniform
+        # sample) run completely every time; the big product families are sampled
+        small = {'flag-beside-list', 'no-gitconfig-equals-empty', 'source-beside-unrelated-flag', 'custom-before-builtin', 'named-before-flags'}
+        pinned = [it for it in items if fam[it[1]][0] in small]
+        rest = [it for it in items if fam[it[1]][0] not in small]
+        rng.shuffle(rest)
+        items = pinned + rest[:ctx.n(800, 0)]
     for i in range(ctx.n(300, 8000)):
         items.append(('random', engine.stable_hash((ctx.seed, 'c13r', i))))
     return items
